@@ -28,7 +28,7 @@ fn items_lit(items: &[It]) -> String {
     s
 }
 
-fn node_code(i: usize, op: &Op, out_deg: usize) -> NodeCode {
+fn node_code(p: &Program, i: usize, op: &Op, out_deg: usize) -> NodeCode {
     let n = format!("n{i}");
     let one_in = || vec![n.clone()];
     let one_out = || vec![n.clone()];
@@ -46,9 +46,32 @@ fn node_code(i: usize, op: &Op, out_deg: usize) -> NodeCode {
         Op::Inspect { id } => simple(format!("inspect(|x: &It| log.inspect({id}, context.current_tick().0, *x))"), one_in(), one_out()),
         Op::Identity => simple("identity::<It>()".into(), one_in(), one_out()),
         Op::MapId => simple("map(|x: It| x)".into(), one_in(), one_out()),
+        Op::Decay => simple("filter_map(|x: It| cl::decay_f(x))".into(), one_in(), one_out()),
+        Op::HoffSingleton => simple("singleton()".into(), one_in(), one_out()),
+        Op::HoffOptional => simple("optional()".into(), one_in(), one_out()),
+        Op::HoffVec => simple("handoff()".into(), one_in(), one_out()),
+        Op::RefMap { target, group, write, f } => {
+            let rid = p.ref_ids()[target];
+            let t = format!("n{target}");
+            let m = if *write { "mut " } else { "" };
+            let slice = match (&p.nodes[*target].op, *write) {
+                (Op::HoffSingleton, false) => format!("::std::slice::from_ref(#{{{group}}} {t})"),
+                (Op::HoffSingleton, true) => format!("::std::slice::from_mut(#{{{group}}} mut {t})"),
+                (_, false) => format!("(#{{{group}}} {t}).as_slice()"),
+                (_, true) => format!("(#{{{group}}} mut {t}).as_mut_slice()"),
+            };
+            let _ = m;
+            let call = if *write { "ref_write" } else { "ref_read" };
+            simple(format!("map(|x: It| log.{call}({rid}, {group}, context.current_tick().0, {f}, x, {slice}))"), one_in(), one_out())
+        }
+        Op::Batch => simple("batch()".into(), one_in(), one_out()),
+        Op::BatchLazy => simple("batch_lazy()".into(), one_in(), one_out()),
+        Op::AllIterations => simple("all_iterations()".into(), one_in(), one_out()),
         Op::Persist => simple("persist::<'static>()".into(), one_in(), one_out()),
         Op::Unique { p } => simple(format!("unique::<{}>()", p.s()), one_in(), one_out()),
-        Op::MultisetDelta => simple("multiset_delta()".into(), one_in(), one_out()),
+        // the typed identity in front lets rustc infer the item type where the input is a deferred
+        // handoff in a cycle (multiset_delta's closure calls `item.clone()` on a not yet inferred type)
+        Op::MultisetDelta => simple("identity::<It>() -> multiset_delta()".into(), one_in(), one_out()),
         Op::Sort => simple("sort()".into(), one_in(), one_out()),
         Op::SortByKey { f } => {
             let proj = if f % 2 == 0 { "&x.0" } else { "&x.1" };
@@ -146,22 +169,43 @@ fn node_code(i: usize, op: &Op, out_deg: usize) -> NodeCode {
 /// The DFIR program text (the body of `dfir_syntax! { .. }`).
 pub fn dfir_text(p: &Program) -> String {
     let degs = p.out_degree();
-    let codes: Vec<NodeCode> = p.nodes.iter().enumerate().map(|(i, n)| node_code(i, &n.op, degs[i])).collect();
-    let mut s = String::new();
-    // watchdog clock (not part of the AST): fires once per executed tick
-    s.push_str("    source_iter([()]) -> persist::<'static>() -> for_each(|_: ()| log.clock(context.current_tick().0));\n");
+    let codes: Vec<NodeCode> = p.nodes.iter().enumerate().map(|(i, n)| node_code(p, i, &n.op, degs[i])).collect();
+    // statements per scope: index 0 = top level, 1 + l = loop block l
+    let mut scopes: Vec<Vec<String>> = vec![vec![]; 1 + p.loops.len()];
+    let sidx = |l: Option<usize>| l.map_or(0, |x| x + 1);
     let order: Vec<usize> = if p.emit_order.len() == p.nodes.len() { p.emit_order.clone() } else { (0..p.nodes.len()).collect() };
     for &i in &order {
+        let li = p.loop_of(i);
         for st in &codes[i].stmts {
-            let _ = writeln!(s, "    {st}");
+            scopes[sidx(li)].push(st.clone());
         }
-        // edges into this node, right after its declaration
+        // edges into this node, right after its declaration; an edge that crosses a loop boundary
+        // is written inside the loop (names declared in a loop block are only visible there)
         for (port, src) in p.nodes[i].ins.iter().enumerate() {
             let from = &codes[src.node].outs[src.port];
             let to = &codes[i].ins[port];
-            let _ = writeln!(s, "    {from} -> {to};");
+            let ls = p.loop_of(src.node);
+            let scope = if p.loop_depth(ls) > p.loop_depth(li) { ls } else { li };
+            scopes[sidx(scope)].push(format!("{from} -> {to};"));
         }
     }
+    fn write_scope(p: &Program, scopes: &[Vec<String>], l: Option<usize>, indent: usize, s: &mut String) {
+        let pad = " ".repeat(indent);
+        for st in &scopes[l.map_or(0, |x| x + 1)] {
+            let _ = writeln!(s, "{pad}{st}");
+        }
+        for (c, par) in p.loops.iter().enumerate() {
+            if *par == l {
+                let _ = writeln!(s, "{pad}loop {{");
+                write_scope(p, scopes, Some(c), indent + 4, s);
+                let _ = writeln!(s, "{pad}}};");
+            }
+        }
+    }
+    let mut s = String::new();
+    // watchdog clock (not part of the AST): fires once per executed tick
+    s.push_str("    source_iter([()]) -> persist::<'static>() -> for_each(|_: ()| log.clock(context.current_tick().0));\n");
+    write_scope(p, &scopes, None, 4, &mut s);
     s
 }
 
